@@ -15,7 +15,7 @@ EXTENDS Universe, Json
 CONSTANTS Depths, Counts
 VARIABLES fam, d
 vars == <<fam, d>>
-RecFams == {"RecList", "RecEvo", "RecTree", "RecEnum"}
+RecFams == {"RecList", "RecEvo", "RecTree", "RecEnum", "RecEvoAsList"}     \* the last one: written by RecEvo, read by its version 0 (= RecList)
 PtrFams == {"arc", "rc", "box"}
 Init == \/ fam \in RecFams /\ d \in Depths
         \/ fam \in PtrFams /\ d \in Counts
@@ -28,10 +28,12 @@ EvoV(n) == <<20, <<0, n % 256>>, IF n = 1 THEN <<4>> ELSE <<5, EvoV(n - 1)>>, <<
 TreeV(n) == <<20, <<0, n % 256>>, IF n = 1 THEN <<8>> ELSE <<8, TreeV(n - 1)>>>>
 EnumV(n) == IF n = 1 THEN <<21, 1, <<0, 1>>>> ELSE <<21, 2, <<21, 1, <<0, n % 256>>>>, EnumV(n - 1)>>
 U32V(i) == <<0, 0, 0, (i \div 256) % 256, i % 256>>
-T == IF fam \in RecFams THEN NamedT(fam) ELSE [k |-> "vec", e |-> [k |-> fam, e |-> K("u32")]]
-V == CASE fam = "RecList" -> ListV(d) [] fam = "RecEvo" -> EvoV(d) [] fam = "RecTree" -> TreeV(d) [] fam = "RecEnum" -> EnumV(d)
+T == IF fam = "RecEvoAsList" THEN NamedT("RecEvo") ELSE IF fam \in RecFams THEN NamedT(fam) ELSE [k |-> "vec", e |-> [k |-> fam, e |-> K("u32")]]
+V == CASE fam = "RecList" -> ListV(d) [] fam \in {"RecEvo", "RecEvoAsList"} -> EvoV(d) [] fam = "RecTree" -> TreeV(d) [] fam = "RecEnum" -> EnumV(d)
        [] OTHER -> <<8>> \o [i \in 1..d |-> U32V(i)]
 E == Encode(T, V)
 RoundTrip == E.ok /\ LET r == Decode(T, E.b) IN r.ok /\ r.v = V /\ r.p = Len(E.b) + 1
+\* the older definition skips the added field at every level
+OldReader == fam = "RecEvoAsList" => LET r == Decode(NamedT("RecList"), E.b) IN r.ok /\ r.v = ListV(d) /\ r.p = Len(E.b) + 1
 EmitCases == PrintT(<<"REPLAY", ToJson([fam |-> fam, d |-> d, b |-> E.b])>>)
 =============================================================================
